@@ -294,7 +294,7 @@ EXTRA11 = {
  "C11": " Round 11: no isolation level below snapshot isolation (R19); the in-process Commit is all-or-nothing (R20); a validation pass is not the apply loop (R14).",
  "C12": " Round 11: C11-R19/R20 into R0.",
  "C13": " Round 11: the less function of a sort indexes the slice that is sorted (R11).",
- "C16": " Round 11: write paths read the latest state of the key (R12); C05-R21 into R10.",
+ "C16": " Round 11: write paths read the latest state of the key (R12); C05-R21 into R10; client range bounds are not built with the record encoder (R13: six call sites are a known finding, the continuation key of a paginated list returns the last key again).",
  "C17": " Round 11: the failed-delete marker is not cleared inside the scan loop (R12).",
  "C20": " Round 11: no lock is held across a wait loop (R14).",
 }
